@@ -60,6 +60,7 @@ def _same_multiset(got, want, what, sig, with_index=True):
 
 
 # --------------------------------------------------------------------------
+@C.sync_scheduler
 def check_shuffle(spec):
     op = spec["op"]
     with C.quiet():
@@ -150,6 +151,7 @@ def shuffle_case(draw):
 
 
 # --------------------------------------------------------------------------
+@C.sync_scheduler
 def check_sort(spec):
     try:
         _check_sort(spec)
@@ -285,6 +287,7 @@ def sort_case(draw):
 
 
 # --------------------------------------------------------------------------
+@C.sync_scheduler
 def check_dedup(spec):
     op = spec["op"]
     with C.quiet():
